@@ -1313,7 +1313,9 @@ _BRK = object()
 
 _STR_METHODS = {"strip", "lstrip", "rstrip", "split", "rsplit", "startswith", "endswith", "lower", "upper", "isdigit",
                 "partition", "rpartition", "find", "rfind", "replace", "join", "encode", "isalnum", "isalpha",
-                "zfill", "splitlines", "count", "index"}
+                "zfill", "splitlines", "count", "index", "isspace", "isupper", "islower", "isascii", "isprintable", "isnumeric",
+                "isdecimal", "isidentifier", "istitle", "title", "capitalize", "casefold", "swapcase", "center", "ljust", "rjust",
+                "removeprefix", "removesuffix", "expandtabs"}
 
 
 def _self_rooted(e):
